@@ -60,7 +60,7 @@ def _option_above_list(L, under_option=False):
     if not isinstance(L, dict):
         return False
     c = L.get("c")
-    if under_option and c in ("ListOffset", "List", "Regular"):
+    if under_option and (c in ("ListOffset", "List", "Regular") or (c == "Numpy" and len(L.get("shape", [0])) > 1)):
         return True
     uo = under_option or c in ("IndexedOption", "ByteMasked", "BitMasked", "Unmasked")
     if "x" in L and _option_above_list(L["x"], uo):
@@ -72,9 +72,9 @@ def _regular_under_var(L, under_var=False):
     if not isinstance(L, dict):
         return False
     c = L.get("c")
-    if under_var and c == "Regular":
+    if under_var and (c == "Regular" or (c == "Numpy" and len(L.get("shape", [0])) > 1)):
         return True
-    uv = under_var or c in ("ListOffset", "List")
+    uv = under_var or c in ("ListOffset", "List", "Regular")     # (a regular outer level is reduced as a ListOffsetArray too)
     if "x" in L and _regular_under_var(L["x"], uv):
         return True
     return any(_regular_under_var(x, uv) for x in L.get("xs", []))
@@ -460,3 +460,79 @@ def negative_axis_below_nested_record(case, why):
     if case.get("act") not in ("num", "localindex", "flatten", "pad", "comb") or ax is None or ax >= 0:
         return False
     return _record_with_list_field_under_list(case.get("from"))
+
+
+def _wcase_layouts(case):
+    w = case.get("_wcase") or {}
+    return [st.get("layout") for st in w.get("steps", []) if isinstance(st, dict) and st.get("op") == "build"]
+
+
+def _has_multidim_numpy(L):
+    if not isinstance(L, dict):
+        return False
+    if L.get("c") == "Numpy" and len(L.get("shape", [0])) > 1:
+        return True
+    return ("x" in L and _has_multidim_numpy(L["x"])) or any(_has_multidim_numpy(x) for x in L.get("xs", []))
+
+
+def concat_multidim_numpy_with_regular(case, why):
+    """F59: NumpyArray::mergeable knows no list classes and RegularArray::mergeable no NumpyArray, so concatenating a
+    MULTIDIMENSIONAL NumpyArray with a RegularArray (or any list array) of the very same type n * T gives union[n * T, n * T]."""
+    if case.get("act") != "concat" or not why.startswith("identical types must merge into one type"):
+        return False
+    ls = _wcase_layouts(case)
+    return len(ls) >= 2 and any(_has_multidim_numpy(L) for L in ls) and not all(_has_multidim_numpy(L) for L in ls)
+
+
+def ellipsis_through_records(case, why):
+    """F57: RecordArray::getitem_next hands every item to its fields with an EMPTY tail, so an Ellipsis met at a record
+    cannot see the items that follow it and expands to nothing: x[..., 0:4:2] on an array of tuples of var * 3 * float64
+    acts as x[:, 0:4:2] (the range lands on the first list level below the record instead of the innermost)."""
+    its = _items(case)
+    if case.get("act") != "slice" or not _has_class(case.get("from"), "Record"):
+        return False
+    k = [i for i, it in enumerate(its) if it.get("k") == "ellipsis"]
+    if len(k) != 1 or k[0] == len(its) - 1:
+        return False
+    return why.startswith("value differs") or why.startswith("spec: value expected") or why.startswith("spec: must raise")
+
+
+def _option_list_under_list(L, under_list=False):
+    """an option node whose content is a list node, itself below a list node"""
+    if not isinstance(L, dict):
+        return False
+    c = L.get("c")
+    if c in ("IndexedOption", "ByteMasked", "BitMasked", "Unmasked") and under_list:
+        x = L.get("x", {})
+        while isinstance(x, dict) and x.get("c") in ("Indexed",):
+            x = x.get("x", {})
+        if isinstance(x, dict) and (x.get("c") in ("ListOffset", "List", "Regular") or (x.get("c") == "Numpy" and len(x.get("shape", [0])) > 1)):
+            return True
+    ul = under_list or c in ("ListOffset", "List", "Regular")
+    if "x" in L and _option_list_under_list(L["x"], ul):
+        return True
+    return any(_option_list_under_list(x, ul) for x in L.get("xs", []))
+
+
+def sort_missing_list_inside_lists(case, why):
+    """F58: sort/argsort along the innermost axis of lists of option-type lists (var * option[var * T]) turn the lists
+    that FOLLOW a missing one in a later outer list into None: sort([[[6]],[None],[[3]]]) gives [[[6]],[None],[None]]
+    (IndexedOptionArray::sort_next/argsort_next use the leaf-level kernel IndexedArray_local_preparenext_64 for a
+    non-leaf option node)."""
+    # (when the outer offsets do not start at zero the same code path gives up with a RuntimeError instead)
+    return (case.get("act") in ("sort", "argsort") and _option_list_under_list(case.get("from"))
+            and (why.startswith("value differs")
+                 or "sort_next with unbranching depth > negaxis expects a ListOffsetArray64 whose offsets start at zero" in why))
+
+
+def num_axis0_bare_recordarray(case, why):
+    """F60: RecordArray::num at its own level (axis=0) returns a RECORD holding the length once per field, while the same
+    records behind an IndexedArray / option node (e.g. after any carry) return the length itself."""
+    if case.get("act") != "num" or not why.startswith("value differs"):
+        return False
+    L = case.get("from") or {}
+    ty = case.get("fromty") or ""
+    ax = case.get("args", {}).get("axis")
+    top_is_record = L.get("c") == "Record"
+    depth = 1                       # records count one level; a negative axis equal to -depth of a flat record means axis 0
+    return top_is_record and (ax == 0 or (ax == -1 and " * " not in ty))
